@@ -319,12 +319,37 @@ func (c06) Execute(t *testing.T, ctx *simrt.Ctx) *simrt.Violation {
 			}
 			for _, b := range bes {
 				bt := b.db.NewBatch(op.Int(0) == 1)
+				// The caller fills a batch through one scratch key buffer and one
+				// scratch value buffer and recycles them before Write (memdb and
+				// LevelDB batches copy what they are given; Badger's transaction API
+				// documents that it keeps the caller's slices until commit, so it gets
+				// stable copies: a documented limitation like its 0xff one).
+				var kbuf, vbuf []byte
+				recycle := b.name != "gobadgerdb"
 				for _, s := range op.Sub {
-					if s.K == "set" {
-						bt.Set(s.B(0), s.B(1))
-					} else {
-						bt.Delete(s.B(0))
+					k, v := s.B(0), s.B(1)
+					if recycle {
+						kbuf = append(kbuf[:0], k...)
+						k = kbuf
+						if v != nil {
+							vbuf = append(vbuf[:0], v...)
+							v = vbuf
+						}
 					}
+					if s.K == "set" {
+						bt.Set(k, v)
+					} else {
+						bt.Delete(k)
+					}
+				}
+				if recycle {
+					for i := range kbuf[:cap(kbuf)] {
+						kbuf[:cap(kbuf)][i] = 0xEE
+					}
+					for i := range vbuf[:cap(vbuf)] {
+						vbuf[:cap(vbuf)][i] = 0xEE
+					}
+					ctx.Fault("batch_buffers_recycled_before_write")
 				}
 				if err := bt.Write(); err != nil && !(b.name == "memdb" && hasDel) {
 					return ctx.Violate("write-failed", b.name+"/batch", "%s batch write returned %v", b.name, err)
